@@ -107,6 +107,21 @@ fn main() {
                 lines.push(mon::hex(&f));
             }
         }
+        // MSM frames with exactly one empty mask (satellites but no signals, signals but no satellites), long enough for
+        // the masks to be present: the full build calls them Corrupt, a build without that type "not supported"
+        for &n in gen::supported_numbers() {
+            if (1071..=1137).contains(&n) && (1..=7).contains(&(n % 10)) {
+                for (sat, sig) in [(0u64, 0x4000_0000u32), (1u64 << 40, 0u32), (0, 0xFFFF_FFFF), (u64::MAX, 0)] {
+                    let mut b = oracle::bits::BitBuf::new();
+                    b.push(n as u128, 12);
+                    b.push(0, 61);
+                    b.push(sat as u128, 64);
+                    b.push(sig as u128, 32);
+                    b.push(0, 80);
+                    lines.push(mon::hex(&oracle::crc::frame(&b.into_bytes())));
+                }
+            }
+        }
         // descriptor strings as receivers send them: blank- and NUL-padded, lone blanks, Latin-1
         for n in [1007u16, 1008, 1033] {
             if gen::is_supported(n) {
